@@ -419,6 +419,12 @@ func init() {
 }
 
 func runC04(c *explore.Ctx) {
+	if !c.Replay || c.ReplayScope == "HUGE-200K" {
+		c04Huge(c)
+		if c.Replay {
+			return
+		}
+	}
 	reach(c, func(scope string, idx int64, st *state) {
 		if st.n != int64(len(st.bytes)) {
 			c.Violate(scope, idx, "C04/byte-count", fmt.Sprintf("WriteTo reported %d bytes, wrote %d", st.n, len(st.bytes)), st.desc)
@@ -658,6 +664,43 @@ func runC11(c *explore.Ctx) {
 				}
 			}
 			closeF()
+		}
+		// WriteTo calls that FAIL part-way (the destination takes only the first k bytes), then a good one
+		// on the same object: the file is the same as ever (a segment remembers nothing of a failed write)
+		{
+			var subjects []segment.Segment
+			var subjNames []string
+			if st.orig != nil {
+				subjects, subjNames = append(subjects, st.orig), append(subjNames, "built")
+			}
+			if l, err := loadMem(b); err == nil {
+				subjects, subjNames = append(subjects, l), append(subjNames, "loaded")
+			}
+			limits := []int{len(b) / 2, len(b) - 1}
+			if len(b) > 1<<16 {
+				limits = []int{0, 4096, len(b) / 2, len(b) - 45, len(b) - 44, len(b) - 1}
+			}
+			for si, sg := range subjects {
+				for _, lim := range limits {
+					if lim < 0 {
+						continue
+					}
+					lw := &limitWriter{limit: lim}
+					var ferr error
+					msg := explore.Guard(func() { _, ferr = sg.WriteTo(lw, nil) })
+					c.R.Transitions++
+					if msg != "" {
+						c.Violate(scope, idx, sigOf("C11", "failed-write", "error: "+msg), msg, st.desc)
+						return
+					}
+					_ = ferr // whether and how the failure is reported is C12's business
+				}
+				b4, n4, err := persist(sg)
+				if err != nil || n4 != int64(len(b4)) || !bytes.Equal(b4, b) {
+					c.Violate(scope, idx, "C11/repersist-after-failed-writes/"+subjNames[si], fmt.Sprintf("WriteTo on the %s segment after %d failed WriteTo calls (destination full after %v bytes): err=%v n=%d len=%d identical=%v", subjNames[si], len(limits), limits, err, n4, len(b4), bytes.Equal(b4, b)), st.desc)
+					return
+				}
+			}
 		}
 		if st.orig != nil {
 			for again := 2; again <= 3; again++ {
